@@ -45,7 +45,8 @@ DeviationNames == {
     "StrongRefInConnLoop",   \* connected-state handler keeps a strong reference to the connection
     "WaitConnectedBlind",    \* wait_for_connected() only returns on Connected / Failed / Closed
     "SigOverwriteClosed",    \* set_*_description commits its signaling transition after close()
-    "SendCheckThenPark"      \* a blocked sender checks the association state and only then creates notified()
+    "SendCheckThenPark",     \* a blocked sender checks the association state and only then creates notified()
+    "ExitDoesNotWake"        \* only close()/Drop of the transport wake a blocked sender, not the end of the association
 }
 
 Rule(p, e) == (p \in Props) => e
@@ -62,7 +63,7 @@ IceStates  == {"New", "Checking", "Connected", "Completed", "Disconnected", "Fai
 IceUp      == {"Connected", "Completed"}
 Events     == {"Close", "Drop", "PeerCloseNotify", "PeerSctpAbort", "PeerSctpShutdown", "IceStop",
                "SocketLoss", "BlockedSender"}
-Phases     == {"created", "offerMade", "gathering", "checking", "iceConnected", "dtlsHandshaking",
+Phases     == {"senderBlocked", "created", "offerMade", "gathering", "checking", "iceConnected", "dtlsHandshaking",
                "dtlsConnected", "sctpConnecting", "channelsOpen", "mediaFlowing", "renegotiating"}
 
 VARIABLES
@@ -123,11 +124,25 @@ GuardEffect ==
     THEN chan' = "closed" /\ closes' = closes + 1
     ELSE UNCHANGED <<chan, closes>>
 
+\* the handler's future (LoopsGuard, or the inline runner) is dropped: what is left of the transport loops is aborted;
+\* an SCTP runner that is dropped runs its cleanup guard (channels closed, parked senders woken)
+RunnerDropped ==
+    IF loops = "running" \/ stask = "inline"
+    THEN /\ loops' = (IF loops = "running" THEN "aborted" ELSE loops)
+         /\ stask' = (IF stask \in {"spawned", "inline"} THEN "done" ELSE stask)
+         /\ GuardEffect
+         /\ srun' = (IF srun \in {"idle", "exited"} THEN srun ELSE "exited")
+         /\ sendpc' = (IF srun \notin {"idle", "exited"} /\ sendpc \in {"parked", "prewait"}
+                           /\ "ExitDoesNotWake" \notin Deviations
+                       THEN "check" ELSE sendpc)
+    ELSE UNCHANGED <<loops, stask, chan, closes, srun, sendpc>>
+
 -----------------------------------------------------------------------------
 (* phases of the start-up, as the binding can observe them *)
 
 PhaseNow ==
-    CASE ap = "init"                                   -> "created"
+    CASE sendpc = "prewait" /\ peerAlive /\ fired = <<>> -> "senderBlocked"
+      [] ap = "init"                                   -> "created"
       [] ap = "gathering"                              -> "gathering"
       [] ap \in {"offerMade", "haveOffer"}             -> "offerMade"
       [] ap = "reneg"                                  -> "renegotiating"
@@ -324,13 +339,9 @@ InnerDrop == StrongRefs = 0 /\ InnerDropCore
 AbortTracked ==
     /\ dropped /\ cl[3] = "done" /\ (lp # "done" \/ CInHandler)
     /\ lp' = "done" /\ cp' = "off"
-    /\ IF loops = "running"
-       THEN loops' = "aborted" /\ stask' = (IF stask = "spawned" THEN "done" ELSE stask) /\ GuardEffect
-       ELSE IF stask = "inline"
-            THEN stask' = "done" /\ GuardEffect /\ UNCHANGED loops
-            ELSE UNCHANGED <<loops, stask, chan, closes>>
+    /\ RunnerDropped
     /\ UNCHANGED <<peer, sig, reason, ap, iceT, sock, seenL, seenC, role, cval, cnext, dtls, dtask, dpermit,
-                   seenD, sctp, srun, spermit, swhy, opened, grace, cl, handles, dropped, calls, sendpc,
+                   seenD, sctp, spermit, swhy, opened, grace, cl, handles, dropped, calls,
                    peerAlive, alertIn, abortIn, shutdownIn, wfcLeft, fired>>
 
 -----------------------------------------------------------------------------
@@ -389,14 +400,10 @@ L_ConnReturn ==
     /\ lp' = IF cp = "retTrue" THEN "top" ELSE "done"
     /\ cp' = "off"
     \* the LoopsGuard lives in the handler's future: returning aborts what is left
-    /\ IF loops = "running"
-       THEN loops' = "aborted" /\ stask' = (IF stask = "spawned" THEN "done" ELSE stask) /\ GuardEffect
-       ELSE IF stask = "inline"
-            THEN stask' = "done" /\ GuardEffect /\ UNCHANGED loops
-            ELSE UNCHANGED <<loops, stask, chan, closes>>
+    /\ RunnerDropped
     /\ UNCHANGED <<peer, reason, seenL, cval, cnext>>
-    /\ UNCHANGED <<sig, ap, iceT, sock, seenC, role, dtls, dtask, dpermit, seenD, sctp, srun, spermit,
-                   swhy, opened, grace, cl, handles, dropped, calls, sendpc, peerAlive, alertIn, abortIn,
+    /\ UNCHANGED <<sig, ap, iceT, sock, seenC, role, dtls, dtask, dpermit, seenD, sctp, spermit,
+                   swhy, opened, grace, cl, handles, dropped, calls, peerAlive, alertIn, abortIn,
                    shutdownIn, wfcLeft, fired>>
 
 -----------------------------------------------------------------------------
@@ -603,9 +610,11 @@ D_Timeout ==
 (* S: SCTP runner (polled inline by start_dtls before DTLS is up, as a transport loop afterwards) *)
 
 SUnch == <<peer, sig, reason, ap, iceT, sock, seenL, seenC, role, lp, cp, cval, cnext, dtls, dtask, dpermit,
-           seenD, grace, cl, handles, dropped, calls, sendpc, peerAlive, alertIn, wfcLeft, fired>>
+           seenD, grace, cl, handles, dropped, calls, peerAlive, alertIn, wfcLeft, fired>>
 
 SExit(why) ==
+    \* the cleanup guard also wakes senders parked on the buffered-amount limit
+    /\ sendpc' = IF sendpc \in {"parked", "prewait"} /\ "ExitDoesNotWake" \notin Deviations THEN "check" ELSE sendpc
     /\ swhy' = IF why = "" THEN swhy ELSE why
     /\ GuardEffect
     /\ IF stask = "inline"
@@ -615,22 +624,22 @@ SExit(why) ==
 S_Start ==
     /\ SPolled /\ srun = "idle"
     /\ srun' = "waitDtls"
-    /\ UNCHANGED <<sctp, stask, spermit, swhy, loops, chan, opened, closes, abortIn, shutdownIn>> /\ UNCHANGED SUnch
+    /\ UNCHANGED <<sctp, stask, spermit, swhy, loops, chan, opened, closes, abortIn, shutdownIn>> /\ UNCHANGED SUnch /\ UNCHANGED sendpc
 
 S_DtlsUp ==
     /\ SPolled /\ srun = "waitDtls" /\ dtls = "Connected"
     /\ srun' = "assoc"
-    /\ UNCHANGED <<sctp, stask, spermit, swhy, loops, chan, opened, closes, abortIn, shutdownIn>> /\ UNCHANGED SUnch
+    /\ UNCHANGED <<sctp, stask, spermit, swhy, loops, chan, opened, closes, abortIn, shutdownIn>> /\ UNCHANGED SUnch /\ UNCHANGED sendpc
 
 S_Established ==
     /\ SPolled /\ srun = "assoc" /\ sctp = "New" /\ dtls = "Connected" /\ peerAlive /\ sock
     /\ sctp' = "Established"
-    /\ UNCHANGED <<stask, srun, spermit, swhy, loops, chan, opened, closes, abortIn, shutdownIn>> /\ UNCHANGED SUnch
+    /\ UNCHANGED <<stask, srun, spermit, swhy, loops, chan, opened, closes, abortIn, shutdownIn>> /\ UNCHANGED SUnch /\ UNCHANGED sendpc
 
 S_ChanOpen ==
     /\ SPolled /\ sctp = "Established" /\ chan = "connecting" /\ peerAlive /\ sock
     /\ chan' = "open" /\ opened' = TRUE
-    /\ UNCHANGED <<sctp, stask, srun, spermit, swhy, loops, closes, abortIn, shutdownIn>> /\ UNCHANGED SUnch
+    /\ UNCHANGED <<sctp, stask, srun, spermit, swhy, loops, closes, abortIn, shutdownIn>> /\ UNCHANGED SUnch /\ UNCHANGED sendpc
 
 \* close(): one permit for two waiters of the runner, or the Closed state seen at the loop top
 S_Closed ==
@@ -680,7 +689,7 @@ S_PeerSilent ==
 T_DirectEnd ==
     /\ IsDirect /\ loops = "running" /\ ~sock
     /\ loops' = "done"
-    /\ UNCHANGED <<sctp, stask, srun, spermit, swhy, chan, opened, closes, abortIn, shutdownIn>> /\ UNCHANGED SUnch
+    /\ UNCHANGED <<sctp, stask, srun, spermit, swhy, chan, opened, closes, abortIn, shutdownIn>> /\ UNCHANGED SUnch /\ UNCHANGED sendpc
 
 -----------------------------------------------------------------------------
 (* ICE transport and the peer *)
@@ -731,9 +740,22 @@ SendUnch == <<peer, sig, reason, ap, iceT, sock, seenL, seenC, role, lp, cp, cva
 
 R_SendCheck ==
     /\ sendpc = "check"
-    /\ IF sctp = "taken"
+    /\ IF sctp = "taken" \/ srun = "exited"
        THEN calls' = calls \ {"send"} /\ sendpc' = "none"       \* "sctp association closed"
-       ELSE UNCHANGED calls /\ sendpc' = "prewait"              \* still over the limit (the peer is gone)
+       ELSE UNCHANGED calls /\ sendpc' = "prewait"              \* over the limit
+    /\ UNCHANGED SendUnch
+
+\* window credit from the (live) peer: the sender goes round its loop again
+R_SendCredit ==
+    /\ sendpc = "parked" /\ peerAlive /\ sctp = "Established" /\ srun = "assoc" /\ sock
+    /\ sendpc' = "check"
+    /\ UNCHANGED calls /\ UNCHANGED SendUnch
+
+\* the application streams data over a small send buffer to a live peer
+A_Stream ==
+    /\ "senderBlocked" \in PhaseSet /\ fired = <<>> /\ sendpc = "none" /\ handles > 0
+    /\ ap = "signaled" /\ cp = "run" /\ peer = "Connected" /\ Dc /\ chan = "open" /\ peerAlive
+    /\ calls' = calls \cup {"send"} /\ sendpc' = "check"
     /\ UNCHANGED SendUnch
 
 R_SendPark ==
@@ -824,7 +846,7 @@ Next ==
     \/ S_InputClosed
     \/ T_DirectEnd
     \/ I_Connect \/ I_Complete \/ I_Disconnect \/ I_Fail
-    \/ R_WaitConnected \/ R_SendCheck \/ R_SendPark
+    \/ R_WaitConnected \/ R_SendCheck \/ R_SendPark \/ R_SendCredit \/ A_Stream
     \/ (\E e \in Events : Fire(e)) \/ A_CallWfc
 
 \* every step of the code's own tasks is fair; the application script and the events are not
@@ -840,6 +862,7 @@ Fairness ==
     /\ WF_vars(InnerDrop \/ AbortTracked)
     /\ WF_vars(R_WaitConnected)
     /\ WF_vars(R_SendCheck \/ R_SendPark)
+    /\ WF_vars(A_Stream)
     /\ WF_vars(A_MakeOffer \/ A_GatherDone \/ A_SetLocal \/ A_SetRemote \/ A_Reneg \/ A_SetRemoteOffer
                \/ A_SetLocalAnswer)
     /\ WF_vars(A_CallWfc)
